@@ -2,11 +2,6 @@
 From ZV Require Import Base.Bytes Base.Res C19.Broadcast C19.BroadcastFacts C20.Model C20.Lemmas C20.Steps C20.Inv.
 From Coq Require Import Lia Permutation.
 
-Section G1.
-Variable matches : nat -> msg -> bool.
-Notation tstep := (Steps.tstep matches).
-Notation Inv := (Inv.Inv matches).
-
 (* a2 / r1 only look at some tables *)
 Lemma a2_ext s s' sid r c : adds s' = adds s -> a2 s' sid r c -> a2 s sid r c.
 Proof. unfold a2. intros ->. tauto. Qed.
@@ -78,6 +73,33 @@ Proof.
   - apply lookup_del_same.
   - now exists e.
 Qed.
+
+
+(* ---- r1 under changes of the stream table that do not touch streams under async drop ---- *)
+Lemma r1_agree s s' r c : drops s' = drops s -> tasks s' = tasks s ->
+  (forall sid pc, lookup (drops s) sid = Some pc -> lookup (streams s') sid = lookup (streams s) sid) ->
+  (r1 s' r c <-> r1 s r c).
+Proof.
+  unfold r1. intros -> -> Hag. split; (intros [(sid & st & Hd & Hs & Hr)|Hin]; [left|now right]); exists sid, st.
+  - rewrite (Hag _ _ Hd) in Hs. tauto.
+  - rewrite (Hag _ _ Hd). tauto.
+Qed.
+
+Lemma in_app_r0 (l : list (nat * rmpc)) r r' c : In (r', R1 c) (l ++ [(r, R0)]) <-> In (r', R1 c) l.
+Proof. rewrite in_app_iff. cbn. split; [intros [H|[H|[]]]; [assumption | discriminate] | tauto]. Qed.
+
+Lemma in_del_nth_r0 (l : list (nat * rmpc)) n r r' c : nth_error l n = Some (r, R0) -> (In (r', R1 c) (del_nth l n) <-> In (r', R1 c) l).
+Proof. intros Hn. split; [apply in_del_nth | intros H; eapply in_del_nth_keep; eauto; discriminate]. Qed.
+
+
+Lemma fresh_spec s sid : fresh s sid = true -> lookup (streams s) sid = None /\ lookup (adds s) sid = None /\ lookup (dead s) sid = None.
+Proof. unfold fresh. destruct (lookup (streams s) sid), (lookup (adds s) sid), (lookup (dead s) sid); try discriminate. tauto. Qed.
+
+
+Section G1.
+Variable matches : nat -> msg -> bool.
+Notation tstep := (Steps.tstep matches).
+Notation Inv := (Inv.Inv matches).
 
 Lemma g_len_step s l s' : tstep s l s' -> Inv s -> 2 <= length (chans s').
 Proof.
@@ -162,22 +184,6 @@ Proof.
     + congruence.
   - apply in_del_key in H1, H2. eapply inv_inj; [apply I | apply H1 | apply H2].
 Qed.
-
-(* ---- r1 under changes of the stream table that do not touch streams under async drop ---- *)
-Lemma r1_agree s s' r c : drops s' = drops s -> tasks s' = tasks s ->
-  (forall sid pc, lookup (drops s) sid = Some pc -> lookup (streams s') sid = lookup (streams s) sid) ->
-  (r1 s' r c <-> r1 s r c).
-Proof.
-  unfold r1. intros -> -> Hag. split; (intros [(sid & st & Hd & Hs & Hr)|Hin]; [left|now right]); exists sid, st.
-  - rewrite (Hag _ _ Hd) in Hs. tauto.
-  - rewrite (Hag _ _ Hd). tauto.
-Qed.
-
-Lemma in_app_r0 (l : list (nat * rmpc)) r r' c : In (r', R1 c) (l ++ [(r, R0)]) <-> In (r', R1 c) l.
-Proof. rewrite in_app_iff. cbn. split; [intros [H|[H|[]]]; [assumption | discriminate] | tauto]. Qed.
-
-Lemma in_del_nth_r0 (l : list (nat * rmpc)) n r r' c : nth_error l n = Some (r, R0) -> (In (r', R1 c) (del_nth l n) <-> In (r', R1 c) l).
-Proof. intros Hn. split; [apply in_del_nth | intros H; eapply in_del_nth_keep; eauto; discriminate]. Qed.
 
 (* a live stream (or an unused id) is not under async drop *)
 Lemma live_no_drop s sid : Inv s -> lookup (streams s) sid = None -> lookup (drops s) sid = None.
@@ -390,9 +396,6 @@ Proof.
   - rewrite (H0 _ _ _ Ha), (H0 _ _ _ Ha'). reflexivity.
   - destruct (Hn _ _ _ Ha).
 Qed.
-
-Lemma fresh_spec s sid : fresh s sid = true -> lookup (streams s) sid = None /\ lookup (adds s) sid = None /\ lookup (dead s) sid = None.
-Proof. unfold fresh. destruct (lookup (streams s) sid), (lookup (adds s) sid), (lookup (dead s) sid); try discriminate. tauto. Qed.
 
 Lemma g_drops_step s l s' : tstep s l s' -> Inv s -> forall sid pc, lookup (drops s') sid = Some pc ->
   exists st r, lookup (streams s') sid = Some st /\ s_rule st = Some r.
